@@ -4,122 +4,103 @@ Explicit-state search over operation histories (add* sort query*)^r on a fresh r
 per history (prefixes are replayed - live containers share a class-level memo).  In every state
 ALL point / range / read queries of the alphabet are compared with brute-force interval overlap
 on the CURRENT feature multiset, so a stale answer is a plain mismatch.
-"""
-import itertools
 
-from gen.reads import header, make_read
+Runs (see bounds()):
+  A    the original space: both strands, one name per feature
+  B    strand-less features next to '+' ones, names shared by all features of a strand (GTF gene_id naming)
+  two  two containers alive in one process, interleaved (the memo is one class-level table)
+  big  coordinates beyond 2**31, container in debug mode
+  mol  FeatureAnnotatedMolecule.annotate / SingleEndTranscriptFragment.annotate on every read group
+  gtf  containers built by loadGTF (4 argument sets), every prefetch(contig,start,end) window clone, a second round via loadBED
+"""
+import contextlib
+import io
+import itertools
+import os
+import shutil
+import tempfile
+
+from gen import c16_inputs as G
+from gen.c16_inputs import letters, multisets, queries
+from oracles import c16_overlap as O
 
 ID = 'C16'
 RULE = ('all histories of r rounds, each round adding a multiset of <=m feature letters (closed intervals over 0..C x strand, '
         'plus 2 letters on a second contig) followed by sort() and then either no query or ALL queries: every point -1..C+2 x '
-        'strand {None,+,-} (positional and keyword call forms), every closed range x strand, and in the last round every read of '
-        '<=2 aligned blocks (both findFeaturesAtPysamAlign methods); molecule annotation (methods 0 and 1) on every single-round history. '
-        'non-trivial = history with >=2 non-empty rounds and >=1 nested or identical interval pair; '
-        'states = distinct (history, query-mode) pairs, transitions = queries answered')
+        'strand {None,+,-} (positional and keyword call forms), every point x optim {nb, optim, any other value = unoptimised path} '
+        '(x strand {None,+,-} in the thin runs), every closed range x strand (incl. an unknown contig), and in the last round every '
+        'read of <=2 aligned blocks plus one soft-clipped / insertion / deletion / second-contig / unknown-contig / unmapped-but-placed read '
+        '(findFeaturesAtPysamAlign: strand None x methods 0,1; + x method 0; - x method 1 on the one-base reads). '
+        'Run B: strand-less and + features, names shared per strand; run two: two live containers A and B interleaved '
+        '(sort A, sort B, query A, B, A / sort A, query A, sort B, query B, A), debug mode; run big: all coordinates + 3e9, container in debug mode. '
+        'mol: on every single-round history, FeatureAnnotatedMolecule.annotate (methods 0, 1 and the constructor\'s own call; stranded '
+        'None/same/opposite; capture_locations on/off; forward and reverse reads, soft-clip, deletion, unmapped, mate pairs R1 fwd/rev, two fragments; '
+        'unique and shared feature names) observed through feature_locations, hits, exons/introns/genes, and '
+        'SingleEndTranscriptFragment annotation of every single fragment. '
+        'gtf: every letter word written as a GTF file and loaded with 4 loadGTF argument sets; the full container, every '
+        'prefetch(contig,lo,hi) clone (all alive together) for the queries inside its window, the full container again, and the container '
+        'after a second round through loadBED (3/4/6/12 columns, strand-less, zero-length, blocks) are queried. '
+        'non-trivial = history with >=2 non-empty rounds and >=1 nested or identical interval pair (two: both containers non-empty and '
+        'different; mol/gtf: >=2 features); states = distinct (history, query-mode) pairs, transitions = queries answered')
 ASSUMPTIONS = [
     'a sort() separates additions from queries (the histories of the property quantifier)',
-    'feature names are unique per added feature (identical intervals are allowed); strand is + or -',
+    'features of one name and interval agree in strand-lessness (a stranded and a strand-less feature never tie on name and interval)',
+    'a strand-less feature may or may not be reported by a stranded query; base `end` of a BED-loaded feature and the deleted bases '
+    'of a read may or may not count (left open by the property text)',
     'the memo is emptied before each history (= a fresh process) and a history never issues more lookups than the memo holds',
 ]
+
+BIG = 3_000_000_000
+ALLST = [None, '+', '-']
+
+
+def _run(name, kind, C, rounds, modes, alpha='pm', names='unique', offset=0, debug=False, optim_strands=(None,)):
+    return {'name': name, 'kind': kind, 'C': C, 'rounds': rounds, 'modes': modes, 'alpha': alpha, 'names': names,
+            'offset': offset, 'debug': debug, 'optim_strands': list(optim_strands)}
 
 
 def bounds(tier):
     if tier == 'quick':
-        return {'runs': [{'C': 3, 'rounds': [2, 2], 'modes': ['none', 'all']}],
-                'molecule_level': 'C=3, all single-round histories of <=2 letters'}
-    return {'runs': [{'C': 3, 'rounds': [3, 2], 'modes': ['all']},
-                     {'C': 4, 'rounds': [2, 2], 'modes': ['none', 'all']},
-                     {'C': 2, 'rounds': [2, 1, 2], 'modes': ['all', 'none']}],
-            'molecule_level': 'C=3, all single-round histories of <=3 letters'}
-
-
-def letters(C):
-    out = []
-    for s in range(0, C + 1):
-        for e in range(s, C + 1):
-            for st in '+-':
-                out.append(('chr1', s, e, st))
-    out.append(('chr2', 1, 2, '+'))
-    out.append(('chr2', 0, C, '-'))
-    return out
-
-
-def multisets(C, m):
-    ls = letters(C)
-    out = []
-    for k in range(0, m + 1):
-        out.extend(itertools.combinations_with_replacement(range(len(ls)), k))
-    return out
+        return {'runs': [_run('A', 'hist', 3, [2, 2], ['none', 'all']),
+                         _run('B', 'hist', 2, [2, 1], ['none', 'all'], alpha='pn', names='shared', optim_strands=ALLST),
+                         _run('two', 'two', 2, [2, 1], ['AB', 'ABA'], debug=True, optim_strands=ALLST),
+                         _run('big', 'hist', 2, [2, 1], ['all'], offset=BIG, debug=True, optim_strands=ALLST)],
+                'molecule_level': {'C': 3, 'm': 2, 'names': ['unique', 'shared']},
+                'gtf_level': {'C': 3, 'm': 2, 'options': [o[0] for o in G.GTF_OPTIONS]}}
+    return {'runs': [_run('A1', 'hist', 3, [3, 2], ['all']),
+                     _run('A2', 'hist', 4, [2, 2], ['none', 'all']),
+                     _run('A3', 'hist', 2, [2, 1, 2], ['all', 'none']),
+                     _run('B', 'hist', 2, [2, 2], ['none', 'all'], alpha='pn', names='shared', optim_strands=ALLST),
+                     _run('two', 'two', 2, [2, 2], ['AB', 'ABA'], debug=True, optim_strands=ALLST),
+                     _run('big', 'hist', 2, [2, 2], ['none', 'all'], offset=BIG, debug=True, optim_strands=ALLST)],
+            'molecule_level': {'C': 3, 'm': 3, 'names': ['unique', 'shared']},   # shared names: words of <=2 letters
+            'gtf_level': {'C': 3, 'm': 3, 'options': [o[0] for o in G.GTF_OPTIONS]}}
 
 
 def shards(tier):
-    out = []
-    for ri, run in enumerate(bounds(tier)['runs']):
-        first = multisets(run['C'], run['rounds'][0])
+    b = bounds(tier)
+    hs = []
+    for ri, run in enumerate(b['runs']):
+        first = multisets(run['C'], run['rounds'][0], run['alpha'])
         for fi in range(len(first)):
-            out.append(('hist', ri, fi))
-    out.append(('mol', 3, 2 if tier == 'quick' else 3))
-    # group history shards to keep the shard count reasonable
-    hs = [s for s in out if s[0] == 'hist']
+            hs.append(('hist', ri, fi))
     grouped = []
-    G = 8 if tier == 'quick' else 32
-    for i in range(0, len(hs), G):
-        grouped.append(('histgroup', hs[i:i + G]))
-    return grouped + [s for s in out if s[0] != 'hist']
+    Gs = 8 if tier == 'quick' else 32
+    for i in range(0, len(hs), Gs):
+        grouped.append(('histgroup', hs[i:i + Gs]))
+    ml = b['molecule_level']
+    n = 8 if tier == 'quick' else 32
+    for names in ml['names']:
+        for c in range(n):
+            grouped.append(('mol', ml['C'], ml['m'] if names == 'unique' else min(ml['m'], 2), names, c, n))
+    gl = b['gtf_level']
+    n = 4 if tier == 'quick' else 16
+    for c in range(n):
+        grouped.append(('gtf', gl['C'], gl['m'], c, n))
+    return grouped
 
 
-# --------------------------------------------------------------------------- queries
-_Q = {}
-
-
-def queries(C):
-    if C in _Q:
-        return _Q[C]
-    hdr = header([('chr1', 50), ('chr2', 50)])
-    pts = []       # (contig, point, strand, call form)
-    for p in range(-1, C + 3):
-        for st in (None, '+', '-'):
-            pts.append(('chr1', p, st, 'pos'))
-        pts.append(('chr1', p, None, 'kw'))
-        pts.append(('chr2', p, None, 'pos'))
-    pts.append(('chrZ', 1, None, 'pos'))
-    rngs = []
-    for a in range(-1, C + 3):
-        for b in range(a, C + 3):
-            for st in (None, '+', '-'):
-                rngs.append(('chr1', a, b, st))
-    for a, b, st in ((0, C, None), (1, 1, '+'), (2, C + 2, None), (-1, 0, '-')):
-        rngs.append(('chr2', a, b, st))
-    reads = []
-    n = 0
-    for a in range(0, C + 2):
-        for b in range(a + 1, C + 3):
-            seq = 'A' * (b - a)
-            r = make_read(hdr, f'r{n}', seq, 'chr1', a, f'{b - a}M', paired=False, tags={'SM': 'X_1', 'RX': 'AAA'})
-            reads.append((r, frozenset(range(a, b)), ('single', a, b)))
-            n += 1
-    for a, b, c, d in itertools.combinations(range(0, C + 3), 4):
-        seq = 'A' * ((b - a) + (d - c))
-        r = make_read(hdr, f'r{n}', seq, 'chr1', a, f'{b - a}M{c - b}N{d - c}M', paired=False,
-                      tags={'SM': 'X_1', 'RX': 'AAA'})
-        reads.append((r, frozenset(range(a, b)) | frozenset(range(c, d)), ('spliced', a, b, c, d)))
-        n += 1
-    _Q[C] = (pts, rngs, reads)
-    return _Q[C]
-
-
-def brute_point(feats, contig, p, st):
-    return {f for f in feats if f[0] == contig and f[1] <= p <= f[2] and (st is None or f[4] == st)}
-
-
-def brute_range(feats, contig, a, b, st):
-    return {f for f in feats if f[0] == contig and max(a, f[1]) <= min(b, f[2]) and (st is None or f[4] == st)}
-
-
-def as_set(contig, res):
-    return {(contig, r[0], r[1], r[2], r[3]) for r in res}
-
-
+# --------------------------------------------------------------------------- the memo
 def _cache_reset():
     from singlecellmultiomics.features import FeatureContainer
     for name in ('findFeaturesAt', 'findNearestFeature'):
@@ -137,129 +118,359 @@ def _cache_overflow():
     return False
 
 
-def run_history(C, rounds, mode_per_round):
-    """rounds: list of tuples of letter indices. Returns (violations, n_queries)."""
-    from singlecellmultiomics.features import FeatureContainer
-    from mc.bind import HarnessError
-    ls = letters(C)
-    pts, rngs, reads = queries(C)
-    _cache_reset()
-    fc = FeatureContainer()
-    feats = set()          # (contig, start, end, name, strand)
-    viol = {}
+def as_keys(contig, res, name=True, open_end_if_no_data=False):
+    if name and not open_end_if_no_data:
+        return {(contig, r[0], r[1], r[2], r[3]) for r in res}
+    out = set()
+    for r in res:
+        if open_end_if_no_data and r[4] is None:
+            out.add((contig, r[0], None, None, r[3]))
+        else:
+            out.add((contig, r[0], r[1], r[2] if name else None, r[3]))
+    return out
+
+
+# --------------------------------------------------------------------------- one query phase
+_EXPECT = {}       # tiny memo of the ORACLE's answers: consecutive histories share their feature sets (modes none/all, same first round)
+
+
+def expected_answers(feats, opts, inside):
+    """-> (point answers, range answers, read answers): lists of (must, may) aligned with the query alphabet"""
+    key = (frozenset(feats) if not isinstance(feats, list) else tuple(feats), opts['C'], opts.get('offset', 0),
+           tuple(opts.get('optim_strands', (None,))))
+    hit = _EXPECT.get(key)
+    if hit is not None:
+        return hit
+    C, off = opts['C'], opts.get('offset', 0)
+    pts, rngs, reads = queries(C, tuple(opts.get('optim_strands', (None,))))
+    ep = [O.expect_point(feats, contig, p + off, st) for contig, p, st, form in pts]
+    er = [O.expect_range(feats, contig, a + off, b + off, st) for contig, a, b, st in rngs]
+    ed = []
+    if not off:
+        for read, contig, positions, deleted, desc in reads:
+            ed.append(O.expect_read_all(feats, contig, positions, deleted))
+    if len(_EXPECT) >= 6:
+        _EXPECT.pop(next(iter(_EXPECT)))
+    _EXPECT[key] = (ep, er, ed)
+    return _EXPECT[key]
+
+
+def read_plan(desc):
+    """(strand, methods) combinations asked for one read letter: strand None with both methods and '+' with method 0 for every
+    read of <=2 blocks; '-' with method 1 for the one-base reads and the other-contig read"""
+    if desc[0] == 'spliced' or (desc[0] == 'single' and desc[2] - desc[1] > 1):
+        return ((None, (0, 1)), ('+', (0,)))
+    if desc[0] in ('single', 'othercontig'):
+        return ((None, (0, 1)), ('+', (0,)), ('-', (1,)))
+    return ((None, (0, 1)),)
+
+
+def query_phase(fc, feats, tag, opts, viol, with_reads, inside=None, name=True, bed=False):
+    """Ask every query of the alphabet (restricted to the closed window `inside` = (contig, lo, hi) when given) and compare
+    with the brute-force answer on `feats`.  Returns the number of queries answered."""
+    C, off = opts['C'], opts.get('offset', 0)
+    pts, rngs, reads = queries(C, tuple(opts.get('optim_strands', (None,))))
+    ep, er, ed = expected_answers(feats, opts, inside)
     nq = 0
-    k = 0
-    last = len(rounds) - 1
-    for ri, add in enumerate(rounds):
-        try:
-            for li in add:
-                contig, s, e, st = ls[li]
-                name = f'f{k}'
-                k += 1
-                fc.addFeature(contig, s, e, name, strand=st, data=None)
-                feats.add((contig, s, e, name, st))
-            fc.sort()
-        except Exception as ex:
-            viol.setdefault(f'round{min(ri, 1) + 1}:add-sort:exception:{type(ex).__name__}', repr(ex))
-            break
-        mode = 'all' if ri == last else mode_per_round
-        if mode == 'none':
+    for (contig, p, st, form), (must, may) in zip(pts, ep):
+        if inside is not None and not (contig == inside[0] and inside[1] <= p <= inside[2]):
             continue
-        tag = 'first-round' if ri == 0 else 'later-round'
-        for contig, p, st, form in pts:
-            want = brute_point(feats, contig, p, st)
-            try:
-                if form == 'pos':
-                    got = fc.findFeaturesAt(contig, p, st)
-                else:
-                    got = fc.findFeaturesAt(chromosome=contig, lookupCoordinate=p, strand=st)
-                nq += 1
-                got = as_set(contig, got)
-            except Exception as ex:
-                viol.setdefault(f'{tag}:findFeaturesAt:exception:{type(ex).__name__}', {'q': (contig, p, st), 'ex': repr(ex)})
-                continue
-            if got != want:
-                kind = 'missing-feature' if want - got else 'extra-feature'
-                viol.setdefault(f'{tag}:findFeaturesAt:{kind}',
-                                {'q': (contig, p, st), 'got': sorted(got), 'want': sorted(want)})
-        for contig, a, b, st in rngs:
-            want = brute_range(feats, contig, a, b, st)
-            try:
-                got = as_set(contig, fc.findFeaturesBetween(contig, a, b, st))
-                nq += 1
-            except Exception as ex:
-                viol.setdefault(f'{tag}:findFeaturesBetween:exception:{type(ex).__name__}', {'q': (contig, a, b, st), 'ex': repr(ex)})
-                continue
-            if got != want:
-                kind = 'missing-feature' if want - got else 'extra-feature'
+        q = p + off
+        site = 'findFeaturesAt' if not form.startswith('optim:') else 'findFeaturesAt-optim-' + form[6:]
+        try:
+            if form == 'pos':
+                got = fc.findFeaturesAt(contig, q, st)
+            elif form == 'kw':
+                got = fc.findFeaturesAt(chromosome=contig, lookupCoordinate=q, strand=st)
+            else:
+                got = fc.findFeaturesAt(contig, q, st, form[6:])
+            nq += 1
+            got = as_keys(contig, got, name, bed)
+        except Exception as ex:
+            viol.setdefault(f'{tag}:{site}:exception:{type(ex).__name__}', {'q': (contig, q, st, form), 'ex': repr(ex)})
+            continue
+        if got != must or got != may:
+            kind = O.verdict(got, must, may)
+            if kind:
+                viol.setdefault(f'{tag}:{site}:{kind}', {'q': (contig, q, st, form), 'got': O.show(got), 'want': O.show(must)})
+    for (contig, a, b, st), (must, may) in zip(rngs, er):
+        if inside is not None and not (contig == inside[0] and inside[1] <= a and b <= inside[2]):
+            continue
+        try:
+            got = as_keys(contig, fc.findFeaturesBetween(contig, a + off, b + off, st), name, bed)
+            nq += 1
+        except Exception as ex:
+            viol.setdefault(f'{tag}:findFeaturesBetween:exception:{type(ex).__name__}', {'q': (contig, a + off, b + off, st), 'ex': repr(ex)})
+            continue
+        if got != must or got != may:
+            kind = O.verdict(got, must, may)
+            if kind:
                 viol.setdefault(f'{tag}:findFeaturesBetween:{kind}',
-                                {'q': (contig, a, b, st), 'got': sorted(got), 'want': sorted(want)})
-        for read, positions, desc in (reads if ri == last else ()):
-            for st in (None, '+'):
-                want = {f for f in feats if f[0] == 'chr1' and (st is None or f[4] == st)
-                        and any(f[1] <= p <= f[2] for p in positions)}
-                for method in ((0, 1) if st is None else (0,)):
+                                {'q': (contig, a + off, b + off, st), 'got': O.show(got), 'want': O.show(must)})
+    if with_reads and not off:
+        for (read, contig, positions, deleted, desc), exp in zip(reads, ed):
+            if inside is not None and not (contig == inside[0] and all(inside[1] <= p <= inside[2] for p in positions | deleted)):
+                continue
+            for st, methods in read_plan(desc):
+                must, may = exp[st]
+                for method in methods:
                     try:
-                        got = as_set('chr1', fc.findFeaturesAtPysamAlign(read, strand=st, method=method))
+                        got = as_keys(contig, fc.findFeaturesAtPysamAlign(read, strand=st, method=method), name, bed)
                         nq += 1
                     except Exception as ex:
                         viol.setdefault(f'{tag}:findFeaturesAtPysamAlign-method{method}:exception:{type(ex).__name__}',
                                         {'q': desc, 'ex': repr(ex)})
                         continue
-                    if got != want:
-                        kind = 'missing-feature' if want - got else 'extra-feature'
-                        viol.setdefault(f'{tag}:findFeaturesAtPysamAlign-method{method}:{kind}',
-                                        {'read': desc, 'strand': st, 'got': sorted(got), 'want': sorted(want)})
-        if _cache_overflow():
-            raise HarnessError('C16: memo filled up inside one history; evictions would blur staleness')
+                    if got != must or got != may:
+                        kind = O.verdict(got, must, may)
+                        if kind:
+                            viol.setdefault(f'{tag}:findFeaturesAtPysamAlign-method{method}:{kind}',
+                                            {'read': desc, 'strand': st, 'got': O.show(got), 'want': O.show(must)})
+    return nq
+
+
+# --------------------------------------------------------------------------- histories on containers built with addFeature
+def execute(opts, steps):
+    """steps: ('add+sort', container id, letter word, signature prefix) | ('query', container id, tag, with_reads).
+    Returns (violations, queries answered)."""
+    from singlecellmultiomics.features import FeatureContainer
+    from mc.bind import HarnessError
+    ls = letters(opts['C'], opts.get('alpha', 'pm'))
+    off = opts.get('offset', 0)
+    scheme = opts.get('names', 'unique')
+    _cache_reset()
+    fcs, feats = {}, {}
+    viol = {}
+    nq = 0
+    k = 0
+    for step in steps:
+        cid = step[1]
+        if cid not in fcs:
+            fcs[cid] = FeatureContainer()
+            if opts.get('debug'):
+                fcs[cid].debug = True
+            feats[cid] = set()
+        fc = fcs[cid]
+        if step[0] == 'add+sort':
+            try:
+                for li in step[2]:
+                    contig, s, e, st = ls[li]
+                    name = G.feature_name(scheme, k, st)
+                    k += 1
+                    if st is None and scheme == 'shared':
+                        fc.addFeature(contig, s + off, e + off, name)              # the default strand
+                    else:
+                        fc.addFeature(contig, s + off, e + off, name, strand=st, data=None)
+                    feats[cid].add((contig, s + off, e + off, name, st, False))
+                fc.sort()
+            except Exception as ex:
+                viol.setdefault(f'{step[3]}:add-sort:exception:{type(ex).__name__}', repr(ex))
+                break
+        else:
+            nq += query_phase(fc, feats[cid], step[2], opts, viol, step[3])
+            if _cache_overflow():
+                raise HarnessError('C16: memo filled up inside one history; evictions would blur staleness')
     return [(s, d) for s, d in viol.items()], nq
 
 
-def run_molecule_level(C, add):
-    """single-round history; FeatureAnnotatedMolecule.annotate(method 0/1) on every read of the alphabet"""
+def hist_steps(rounds, mode):
+    steps = []
+    last = len(rounds) - 1
+    for ri, add in enumerate(rounds):
+        steps.append(('add+sort', 0, add, f'round{min(ri, 1) + 1}'))
+        if ri == last or mode == 'all':
+            steps.append(('query', 0, 'first-round' if ri == 0 else 'later-round', ri == last))
+    return steps
+
+
+def two_steps(rounds, mode):
+    a, b = rounds
+    t = 'two-containers'
+    if mode == 'AB':
+        return [('add+sort', 'A', a, t), ('add+sort', 'B', b, t), ('query', 'A', t, False), ('query', 'B', t, True), ('query', 'A', t, True)]
+    return [('add+sort', 'A', a, t), ('query', 'A', t, False), ('add+sort', 'B', b, t), ('query', 'B', t, True), ('query', 'A', t, True)]
+
+
+def run_history(C, rounds, mode_per_round, opts=None):
+    o = {'C': C}
+    o.update(opts or {})
+    if o.get('kind') == 'two':
+        return execute(o, two_steps(rounds, mode_per_round))
+    return execute(o, hist_steps(rounds, mode_per_round))
+
+
+# --------------------------------------------------------------------------- molecule / fragment level
+def run_molecule_level(C, add, names='unique'):
+    """single-round history; FeatureAnnotatedMolecule.annotate(method 0/1) and SingleEndTranscriptFragment.annotate on every
+    read group of the alphabet"""
     from singlecellmultiomics.features import FeatureContainer
-    from singlecellmultiomics.fragment import Fragment
+    from singlecellmultiomics.fragment import Fragment, SingleEndTranscriptFragment
     from singlecellmultiomics.molecule.featureannotatedmolecule import FeatureAnnotatedMolecule
+    from mc.bind import HarnessError
     ls = letters(C)
-    _, _, reads = queries(C)
     _cache_reset()
     fc = FeatureContainer()
-    feats = set()
+    feats = []         # oracle records
+    meta = []          # (key, data, type, gene, exon id) per feature
     try:
         for k, li in enumerate(add):
             contig, s, e, st = ls[li]
-            fc.addFeature(contig, s, e, f'f{k}', strand=st, data=(('id', f'f{k}'),))
-            feats.add((contig, s, e, f'f{k}', st))
+            name = G.feature_name(names, k, st)
+            ftype = 'exon' if st == '+' else 'intron'
+            gene = f'G{k % 2}'
+            data = (('gene_id', gene), ('type', ftype), ('exon_id', name), ('transcript_id', 't'))
+            fc.addFeature(contig, s, e, name, strand=st, data=data)
+            f = (contig, s, e, name, st, False)
+            feats.append(f)
+            meta.append((O.key_of(f), data, ftype, gene, name))
         fc.sort()
     except Exception as ex:
         return [(f'round1:add-sort:exception:{type(ex).__name__}', repr(ex))], 0
     viol = {}
     n = 0
-    for read, positions, desc in reads:
-        for stranded in (None, False, True):
+
+    def judge(sig, got, must, may, detail):
+        kind = O.verdict(got, must, may)
+        if kind:
+            d = dict(detail)
+            d.update({'got': O.show(got), 'want': O.show(must)})
+            viol.setdefault(f'{sig}:{kind}', d)
+
+    for gi, (spec, contig, positions, deleted, rev, desc) in enumerate(G.molecule_reads(C)):
+        for stranded in ((None, False, True) if rev is not None else (None,)):     # a molecule without strand has no same / other strand
+            # stranded False -> the strand of the molecule (= of R1), True -> the other one
+            st = None if stranded is None else ('+-'[rev] if not stranded else '-+'[rev])
+            must, may = O.expect_read(feats, contig, positions, deleted, st)
             for method in (0, 1):
-                try:
-                    frag = Fragment([read, None])
-                    mol = FeatureAnnotatedMolecule(frag, features=fc, stranded=stranded, capture_locations=True)
-                    mol.annotate(method=method)
-                    got = set(mol.feature_locations.keys())
-                    n += 1
-                except Exception as ex:
-                    viol.setdefault(f'annotate-method{method}:exception:{type(ex).__name__}', {'read': desc, 'ex': repr(ex)})
-                    continue
-                # read is forward: stranded False -> same strand '+', True -> '-'
-                st = None if stranded is None else ('-' if stranded else '+')
-                want = {f[3] for f in feats if f[0] == 'chr1' and (st is None or f[4] == st)
-                        and any(f[1] <= p <= f[2] for p in positions)}
-                if got != want:
-                    kind = 'missing-feature' if want - got else 'extra-feature'
-                    viol.setdefault(f'annotate-method{method}:{kind}',
-                                    {'read': desc, 'stranded': stranded, 'got': sorted(got), 'want': sorted(want)})
+                for capture in ((True, False) if stranded is None else (True,)):
+                    site = f'annotate-method{method}'
+                    try:
+                        frags = [Fragment(reads, assignment_radius=10) for reads in G.build_reads(spec, contig)]
+                        mol = FeatureAnnotatedMolecule(frags[0] if len(frags) == 1 else frags, features=fc, stranded=stranded,
+                                                       capture_locations=capture)
+                        if len(mol) != len(frags):
+                            raise HarnessError(f'C16: molecule did not accept its fragments {desc}')
+                        mol.annotate(method=method)
+                        n += 1
+                        got_hits = set(mol.hits.keys())
+                        got_loc = None
+                        if capture:
+                            got_loc = {(contig, s, e, name, fst) for name, locs in mol.feature_locations.items() for s, e, fst in locs}
+                        mol.set_intron_exon_features()
+                        got_ex, got_in, got_gn = set(mol.exons), set(mol.introns), set(mol.genes)
+                    except HarnessError:
+                        raise
+                    except Exception as ex:
+                        viol.setdefault(f'{site}:exception:{type(ex).__name__}', {'read': desc, 'stranded': stranded, 'ex': repr(ex)})
+                        continue
+                    det = {'read': desc, 'stranded': stranded, 'capture_locations': capture}
+                    if capture:
+                        judge(site, got_loc, must, may, det)
+                    judge(site + ':hits', got_hits, {m[1] for m in meta if m[0] in must}, {m[1] for m in meta if m[0] in may}, det)
+                    judge(site + ':exons', got_ex, {m[4] for m in meta if m[0] in must and m[2] == 'exon'},
+                          {m[4] for m in meta if m[0] in may and m[2] == 'exon'}, det)
+                    judge(site + ':introns', got_in, {m[3] for m in meta if m[0] in must and m[2] == 'intron'},
+                          {m[3] for m in meta if m[0] in may and m[2] == 'intron'}, det)
+                    judge(site + ':genes', got_gn, {m[3] for m in meta if m[0] in must}, {m[3] for m in meta if m[0] in may}, det)
+        must, may = O.expect_read(feats, contig, positions, deleted, None)
+
+        def judge_tags(site, obj, det):
+            judge(site + ':hits', set(obj.hits.keys()), {m[1] for m in meta if m[0] in must}, {m[1] for m in meta if m[0] in may}, det)
+            judge(site + ':exons', set(obj.exons), {m[4] for m in meta if m[0] in must and m[2] == 'exon'},
+                  {m[4] for m in meta if m[0] in may and m[2] == 'exon'}, det)
+            judge(site + ':introns', set(obj.introns), {m[3] for m in meta if m[0] in must and m[2] == 'intron'},
+                  {m[3] for m in meta if m[0] in may and m[2] == 'intron'}, det)
+            judge(site + ':genes', set(obj.genes), {m[3] for m in meta if m[0] in must}, {m[3] for m in meta if m[0] in may}, det)
+
+        # the constructor annotates by itself (what the taggers use)
+        try:
+            frags = [Fragment(reads, assignment_radius=10) for reads in G.build_reads(spec, contig)]
+            mol = FeatureAnnotatedMolecule(frags[0] if len(frags) == 1 else frags, features=fc, stranded=None,
+                                           capture_locations=True, auto_set_intron_exon_features=True)
+            n += 1
+            got_loc = {(contig, s, e, name, fst) for name, locs in mol.feature_locations.items() for s, e, fst in locs}
+        except Exception as ex:
+            viol.setdefault(f'annotate-auto:exception:{type(ex).__name__}', {'read': desc, 'ex': repr(ex)})
+        else:
+            judge('annotate-auto', got_loc, must, may, {'read': desc})
+            judge_tags('annotate-auto', mol, {'read': desc})
+        # fragment-level annotation (strand-less; its `stranded` argument is undocumented)
+        if len(spec) == 1:
+            try:
+                reads = G.build_reads(spec, contig)[0]
+                frag = SingleEndTranscriptFragment(reads, features=fc, stranded=None, capture_locations=True)
+                n += 1
+                got_loc = {(contig, s, e, name, fst) for name, locs in frag.feature_locations.items() for s, e, fst in locs}
+            except Exception as ex:
+                viol.setdefault(f'fragment-annotate:exception:{type(ex).__name__}', {'read': desc, 'ex': repr(ex)})
+                continue
+            judge('fragment-annotate', got_loc, must, may, {'read': desc})
+            judge_tags('fragment-annotate', frag, {'read': desc})
     return [(s, d) for s, d in viol.items()], n
 
 
-def _nested(C, rounds):
-    ls = letters(C)
+# --------------------------------------------------------------------------- containers built from annotation files
+def run_gtf_level(C, add, oi, tmpdir=None):
+    """The letter word as a GTF file.  (1) loadGTF(**option) -> all queries; (2) preload_GTF + prefetch(contig, lo, hi) for every
+    window: each clone answers every query that lies inside its window like the complete annotation (all clones stay alive);
+    (3) the full container again; (4) loadBED as a second add+sort round on the full container -> all queries."""
+    from singlecellmultiomics.features import FeatureContainer
+    own = tmpdir is None
+    if own:
+        tmpdir = tempfile.mkdtemp(prefix='c16_', dir='/dev/shm' if os.path.isdir('/dev/shm') else None)
+    try:
+        label, kwargs, fields = G.GTF_OPTIONS[oi]
+        recs = G.gtf_records(C, add)
+        path = os.path.join(tmpdir, 'a.gtf')
+        with open(path, 'w') as f:
+            f.write(G.gtf_text(recs))
+        bedpath = os.path.join(tmpdir, 'b.bed')
+        with open(bedpath, 'w') as f:
+            f.write(G.bed_text(G.bed_records(C)))
+        opts = {'C': C, 'optim_strands': ALLST}
+        name = fields is not None
+        select = kwargs.get('select_feature_type')
+        full_feats = O.gtf_expected(recs, fields, select)
+        viol = {}
+        nq = 0
+        _cache_reset()
+        sink = io.StringIO()
+        with contextlib.redirect_stdout(sink):
+            try:
+                full = FeatureContainer()
+                full.loadGTF(path, **kwargs)
+            except Exception as ex:
+                return [(f'gtf-loaded:loadGTF:exception:{type(ex).__name__}', {'option': label, 'ex': repr(ex)})], 0
+            nq += query_phase(full, full_feats, 'gtf-loaded', opts, viol, True, name=name)
+            clones = []
+            try:
+                pre = FeatureContainer()
+                pre.preload_GTF(path=path, **kwargs)
+                windows = [('chr1', lo, hi) for lo in range(0, C + 2) for hi in range(lo, C + 2)] + [('chr2', 1, C), ('chrZ', 0, C)]
+                for w in windows:
+                    clones.append((w, pre.prefetch(*w)))
+            except Exception as ex:
+                viol.setdefault(f'prefetched:prefetch:exception:{type(ex).__name__}', {'option': label, 'ex': repr(ex)})
+                clones = []
+            for w, clone in clones:
+                nq += query_phase(clone, full_feats, 'prefetched', opts, viol, True, inside=w, name=name)
+            nq += query_phase(full, full_feats, 'gtf-loaded-after-prefetch', opts, viol, False, name=name)
+            try:
+                full.loadBED(bedpath)
+            except Exception as ex:
+                viol.setdefault(f'bed-second-round:loadBED:exception:{type(ex).__name__}', {'option': label, 'ex': repr(ex)})
+            else:
+                nq += query_phase(full, full_feats + O.bed_expected(G.bed_records(C)), 'bed-second-round', opts, viol, True,
+                                  name=name, bed=True)
+        return [(s, d) for s, d in viol.items()], nq
+    finally:
+        if own:
+            shutil.rmtree(tmpdir, ignore_errors=True)
+
+
+# --------------------------------------------------------------------------- driver
+def _nested(C, rounds, alpha='pm'):
+    ls = letters(C, alpha)
     ivs = [ls[i] for r in rounds for i in r if ls[i][0] == 'chr1']
     for x, y in itertools.combinations(ivs, 2):
         if (x[1] <= y[1] and y[2] <= x[2]) or (y[1] <= x[1] and x[2] <= y[2]):
@@ -267,39 +478,65 @@ def _nested(C, rounds):
     return False
 
 
+def _chunk(seq, c, n):
+    return [x for i, x in enumerate(seq) if i % n == c]
+
+
 def run_shard(shard, tier, acc):
     if shard[0] == 'histgroup':
         for s in shard[1]:
             _run_hist(s, tier, acc)
     elif shard[0] == 'mol':
-        _, C, m = shard
-        for add in multisets(C, m):
-            case = {'kind': 'mol', 'C': C, 'add': list(add)}
-            viols, n = run_molecule_level(C, add)
-            acc.case(case, transitions=n, nontrivial=len(add) >= 2, outcome=f'mol:{len(add)}')
+        _, C, m, names, c, n = shard
+        for add in _chunk(multisets(C, m), c, n):
+            case = {'kind': 'mol', 'C': C, 'add': list(add), 'names': names}
+            viols, nq = run_molecule_level(C, add, names)
+            acc.case(case, transitions=nq, nontrivial=len(add) >= 2, outcome=f'mol:{names}:{len(add)}')
             for sig, d in viols:
                 acc.violation(sig, case, d)
+    elif shard[0] == 'gtf':
+        _, C, m, c, n = shard
+        tmpdir = tempfile.mkdtemp(prefix='c16_', dir='/dev/shm' if os.path.isdir('/dev/shm') else None)
+        try:
+            for add in _chunk(multisets(C, m), c, n):
+                for oi in range(len(G.GTF_OPTIONS)):
+                    case = {'kind': 'gtf', 'C': C, 'add': list(add), 'option': oi}
+                    viols, nq = run_gtf_level(C, add, oi, tmpdir)
+                    acc.case(case, transitions=nq, nontrivial=len(add) >= 2, outcome=f'gtf:{G.GTF_OPTIONS[oi][0]}:{len(add)}')
+                    for sig, d in viols:
+                        acc.violation(sig, case, d)
+        finally:
+            shutil.rmtree(tmpdir, ignore_errors=True)
 
 
 def _run_hist(s, tier, acc):
     _, ri, fi = s
     run = bounds(tier)['runs'][ri]
-    C = run['C']
-    first = multisets(C, run['rounds'][0])[fi]
-    later = [multisets(C, m) for m in run['rounds'][1:]]
+    C, alpha = run['C'], run['alpha']
+    opts = {k: run[k] for k in ('kind', 'alpha', 'names', 'offset', 'debug', 'optim_strands')}
+    first = multisets(C, run['rounds'][0], alpha)[fi]
+    later = [multisets(C, m, alpha) for m in run['rounds'][1:]]
     for rest in itertools.product(*later):
         rounds = (first,) + tuple(rest)
         for mode in run['modes']:
-            case = {'kind': 'hist', 'C': C, 'rounds': [list(r) for r in rounds], 'mode': mode}
-            viols, nq = run_history(C, rounds, mode)
+            case = {'kind': run['kind'], 'C': C, 'rounds': [list(r) for r in rounds], 'mode': mode, 'opts': opts}
+            viols, nq = run_history(C, rounds, mode, opts)
             nonempty = sum(1 for r in rounds if r)
-            acc.case(case, transitions=nq, nontrivial=(nonempty >= 2 and _nested(C, rounds)),
-                     outcome=f'rounds={nonempty},mode={mode},nested={_nested(C, rounds)}')
+            nested = _nested(C, rounds, alpha)
+            if run['kind'] == 'two':
+                nt = nonempty == 2 and sorted(rounds[0]) != sorted(rounds[1])
+            else:
+                nt = nonempty >= 2 and nested
+            acc.case(case, transitions=nq, nontrivial=nt, outcome=f'run={run["name"]},rounds={nonempty},mode={mode},nested={nested}')
             for sig, d in viols:
                 acc.violation(sig, case, d)
 
 
 def replay(case):
     if case['kind'] == 'mol':
-        return run_molecule_level(case['C'], tuple(case['add']))[0]
-    return run_history(case['C'], tuple(tuple(r) for r in case['rounds']), case['mode'])[0]
+        return run_molecule_level(case['C'], tuple(case['add']), case.get('names', 'unique'))[0]
+    if case['kind'] == 'gtf':
+        return run_gtf_level(case['C'], tuple(case['add']), case['option'])[0]
+    opts = dict(case.get('opts') or {})
+    opts['kind'] = case['kind']
+    return run_history(case['C'], tuple(tuple(r) for r in case['rounds']), case['mode'], opts)[0]
